@@ -2,7 +2,7 @@
    repetitions as [forallb], PyBytes.split on one byte as a structural
    function, strip / trim, lower-casing against an ASCII word. *)
 From Coq Require Import List NArith Bool Lia Arith.
-From WV Require Import Lib.PyBytes Lib.Regex Spec.Grammar Spec.Ref9112.
+From WV Require Import Lib.PyBytes Lib.Regex Lib.RegexDec Spec.Grammar Spec.Ref9112.
 Import ListNotations.
 Local Open Scope N_scope.
 
@@ -190,3 +190,23 @@ Qed.
 
 Lemma chunked_ascii : ascii_word w_chunked.
 Proof. unfold ascii_word, w_chunked. repeat constructor. Qed.
+
+(* ---------------------------------------------------------------- *)
+(* equality of two byte predicates by exhaustion over the 256 bytes *)
+
+Lemma byte_table (f g : N -> bool) :
+  forallb (fun x => Bool.eqb (f x) (g x)) alphabet = true -> forall x, x < 256 -> f x = g x.
+Proof.
+  intros H x Hx. rewrite forallb_forall in H. apply eqb_prop. apply H. apply alphabet_complete. exact Hx.
+Qed.
+
+Lemma forallb_ext_in {A} (f g : A -> bool) l : (forall x, In x l -> f x = g x) -> forallb f l = forallb g l.
+Proof.
+  induction l as [|x l IH]; simpl; auto. intro H. rewrite H, IH; auto.
+Qed.
+
+Lemma bytes_ok_app a b : bytes_ok (a ++ b) <-> bytes_ok a /\ bytes_ok b.
+Proof. unfold bytes_ok. apply Forall_app. Qed.
+
+Lemma iff_bool (a b : bool) : (a = true <-> b = true) -> a = b.
+Proof. destruct a, b; intuition congruence. Qed.
